@@ -373,8 +373,40 @@ pub fn mkmap_bomb(depth: usize) -> Vec<u8> {
     x
 }
 
+/// "comb" shaped nesting: every level holds TWO sub proofs, a shallow one (no sub proofs) and the
+/// one that carries the next level; `shallow_first` puts the shallow sibling before the deep one
+/// (a depth accounting that is disturbed by a completed sibling only shows with this shape)
+pub fn mkmap_comb(depth: usize, shallow_first: bool) -> Vec<u8> {
+    const MASTER: [u8; 4] = [0, 0, 0, 0];
+    const KEY: [u8; 2] = [0, 15];
+    const SHALLOW: [u8; 5] = [0, 0, 0, 0, 0];
+    let mut x = Vec::with_capacity(depth * 14 + 5);
+    for _ in 0..depth {
+        x.extend_from_slice(&MASTER);
+        x.push(2);
+        if shallow_first {
+            x.extend_from_slice(&KEY);
+            x.extend_from_slice(&SHALLOW);
+        }
+        x.extend_from_slice(&KEY);
+    }
+    x.extend_from_slice(&SHALLOW);
+    if !shallow_first {
+        for _ in 0..depth {
+            x.extend_from_slice(&KEY);
+            x.extend_from_slice(&SHALLOW);
+        }
+    }
+    x
+}
+
 pub fn bincode_bombs(depths: &[usize]) -> Vec<Mutant> {
-    depths.iter().map(|&n| m(format!("bincode MKMapProof sub_proofs nesting x{n}"), mkmap_bomb(n), true)).collect()
+    let mut out: Vec<Mutant> = depths.iter().map(|&n| m(format!("bincode MKMapProof sub_proofs nesting x{n}"), mkmap_bomb(n), true)).collect();
+    for &n in depths {
+        out.push(m(format!("bincode MKMapProof comb nesting (shallow sibling first) x{n}"), mkmap_comb(n, true), true));
+        out.push(m(format!("bincode MKMapProof comb nesting (deep sibling first) x{n}"), mkmap_comb(n, false), true));
+    }
+    out
 }
 
 // ---------------------------------------------------------------------------------------------
